@@ -4,6 +4,7 @@ import Driver.RouterD
 import Driver.CommitLogD
 import Driver.FrameD
 import Driver.CodecD
+import Driver.CStateD
 
 def main (args : List String) : IO UInt32 := do
   match args with
@@ -13,6 +14,16 @@ def main (args : List String) : IO UInt32 := do
   | ["frame", "--selftest-wrong"] => Driver.runHandler (Driver.FrameD.handler true)
   | ["codec"] => Driver.CodecD.run false
   | ["codec", "--selftest-wrong"] => Driver.CodecD.run true
+  | ["cstate"] => Driver.CStateD.run false Driver.CStateD.allFocus
+  | ["cstate", "--selftest-wrong"] => Driver.CStateD.run true Driver.CStateD.allFocus
+  | ["cstate-C07"] => Driver.CStateD.run false ["C07"]
+  | ["cstate-C02"] => Driver.CStateD.run false ["C02"]
+  | ["cstate-C10"] => Driver.CStateD.run false ["C10"]
+  | ["cstate-C11"] => Driver.CStateD.run false ["C11"]
+  | ["cstate-C07", "--selftest-wrong"] => Driver.CStateD.run true ["C07"]
+  | ["cstate-C02", "--selftest-wrong"] => Driver.CStateD.run true ["C02"]
+  | ["cstate-C10", "--selftest-wrong"] => Driver.CStateD.run true ["C10"]
+  | ["cstate-C11", "--selftest-wrong"] => Driver.CStateD.run true ["C11"]
   | ["clog"] => Driver.runHandler (Driver.CommitLogD.handler false)
   | ["clog", "--selftest-wrong"] => Driver.runHandler (Driver.CommitLogD.handler true)
   | ["router", prop] => Driver.runHandler (Driver.RouterD.handler prop false)
